@@ -463,6 +463,11 @@ func (fg *FG) invStep(p, h *ssa.BasicBlock, st *State, pkg *types.Package) {
 			fg.oblig("inv-step", fmt.Sprintf("inv-step:loop%d#%s@b%d%s", ord, clauseName(inv, k), p.Index, pth.sfx), inv.Tag, pth.cond, t.T, inv.Src, fmt.Sprintf("%s:%d", inv.File, inv.Line))
 		}
 	}
+	for _, f := range sortedKeys(boolKeys(fg.balHead[h.Index])) {
+		if cur, ok := st.heaps[f]; ok {
+			fg.oblig("safe", fmt.Sprintf("locks:iter:%s@b%d", strings.TrimPrefix(f, "G_any_"), p.Index), "", cond, fmt.Sprintf("(= %s %s)", cur, fg.balHead[h.Index][f]), "every lock taken in a loop iteration is released before the next one", fg.posOf(fg.fn.Pos()))
+		}
+	}
 	fg.curBlock = cb
 	for phi, v := range saved {
 		fg.vals[phi] = v
@@ -552,6 +557,19 @@ func (fg *FG) havocLoop(h *ssa.BasicBlock, st *State) {
 		}
 		old := fg.heap(st, f, "")
 		nh := fg.havocHeap(st, f)
+		if fg.g.ct.Balanced[strings.TrimPrefix(f, "G_any_")] && !fg.modifiesBalanced(f) {
+			// automatic loop invariant: the balanced counters are at the loop head what they were before
+			// the loop (checked at every back-edge: locks:iter)
+			fg.assume(fmt.Sprintf("(= %s %s)", nh, old))
+			if fg.balHead == nil {
+				fg.balHead = map[int]map[string]string{}
+			}
+			if fg.balHead[h.Index] == nil {
+				fg.balHead[h.Index] = map[string]string{}
+			}
+			fg.balHead[h.Index][f] = nh
+			continue
+		}
 		// objects that are not reachable for writing stay unchanged: we keep the frame only for
 		// references the function may not modify at all (outside modifies and not fresh) — sound and cheap
 		fg.loopFrame(f, old, nh)
@@ -561,7 +579,7 @@ func (fg *FG) havocLoop(h *ssa.BasicBlock, st *State) {
 // loopFrame: inside a loop every store passes the frame check, so locations outside the function's
 // modifies clause that were allocated before entry are unchanged across iterations.
 func (fg *FG) loopFrame(fam, old, nh string) {
-	if fg.c == nil || strings.HasPrefix(fam, "IT_seen_") || fam == "G_any_lastSel" {
+	if fg.c == nil || strings.HasPrefix(fam, "IT_seen_") || fam == "G_any_lastSel" || fg.g.ct.Volatile[strings.TrimPrefix(fam, "G_any_")] {
 		return
 	}
 	srt := fg.heapSort[fam]
@@ -650,6 +668,9 @@ func (fg *FG) loopModFamilies(h *ssa.BasicBlock) map[string]bool {
 					fg.heapSort["G_any_lastSel"] = "(Array Int Int)"
 					fams["G_any_lastSel"] = true
 				}
+				for _, vf := range fg.volatileFamilies() {
+					fams[vf] = true
+				}
 			case *ssa.Defer:
 				fg.fail("defer inside a loop is outside the subset")
 			case *ssa.Go:
@@ -662,6 +683,9 @@ func (fg *FG) loopModFamilies(h *ssa.BasicBlock) map[string]bool {
 				if fg.lastSelDeclared() {
 					fg.heapSort["G_any_lastSel"] = "(Array Int Int)"
 					fams["G_any_lastSel"] = true
+				}
+				for _, vf := range fg.volatileFamilies() {
+					fams[vf] = true
 				}
 			case *ssa.UnOp:
 			}
@@ -966,17 +990,26 @@ func (fg *FG) bodyFamilies(fn *ssa.Function, fams map[string]bool, depth int) {
 					fg.heapSort["G_any_lastSel"] = "(Array Int Int)"
 					fams["G_any_lastSel"] = true
 				}
+				for _, vf := range fg.volatileFamilies() {
+					fams[vf] = true
+				}
 			case *ssa.Call:
 				fg.callFamilies(x.Common(), fams)
 				if fg.lastSelDeclared() {
 					fg.heapSort["G_any_lastSel"] = "(Array Int Int)"
 					fams["G_any_lastSel"] = true
 				}
+				for _, vf := range fg.volatileFamilies() {
+					fams[vf] = true
+				}
 			case *ssa.Defer:
 				fg.callFamilies(x.Common(), fams)
 				if fg.lastSelDeclared() {
 					fg.heapSort["G_any_lastSel"] = "(Array Int Int)"
 					fams["G_any_lastSel"] = true
+				}
+				for _, vf := range fg.volatileFamilies() {
+					fams[vf] = true
 				}
 			}
 		}
@@ -1184,6 +1217,28 @@ func (fg *FG) ret(b *ssa.BasicBlock, st *State, t *ssa.Return, pkg *types.Packag
 			}
 		}
 	}
+	for name := range fg.g.ct.Balanced {
+		f := "G_any_" + sanitize(name)
+		if fg.modifiesBalanced(f) {
+			continue
+		}
+		for _, pth := range paths {
+			cur, touched := pth.st.heaps[f]
+			if !touched {
+				continue
+			}
+			entry := "H0." + f
+			if e, ok := fg.entrySt.heaps[f]; ok {
+				entry = e
+			} else {
+				fg.declare(entry, fg.heapSort[f])
+			}
+			if cur == entry {
+				continue
+			}
+			fg.oblig("safe", fmt.Sprintf("locks:balanced:%s@%s%s", name, label, pth.sfx), "", pth.cond, fmt.Sprintf("(= %s %s)", cur, entry), "the function returns with every lock it took released", fg.posOf(t.Pos()))
+		}
+	}
 	for _, pth := range paths {
 		env := fg.envAt(pth.st, pkg, nil)
 		if len(fg.c.GhostSets) > 0 {
@@ -1257,4 +1312,26 @@ func (fg *FG) retOrdinal(t *ssa.Return) int {
 		}
 	}
 	return n
+}
+
+// modifiesBalanced: does the function's own contract list the balanced counter under modifies
+// (a function that is meant to return holding a lock)?
+func (fg *FG) modifiesBalanced(fam string) bool {
+	if fg.c == nil {
+		return false
+	}
+	for _, m := range fg.c.Modifies {
+		if strings.Contains(m.Src, "."+strings.TrimPrefix(fam, "G_any_")) {
+			return true
+		}
+	}
+	return false
+}
+
+func boolKeys(m map[string]string) map[string]bool {
+	out := map[string]bool{}
+	for k := range m {
+		out[k] = true
+	}
+	return out
 }
